@@ -5,7 +5,11 @@ PROVED here: the per-instruction translation (`INSTRUCTION_SET`, `Op`: the gener
 obtained by reflection on the real translation functions) is sound with respect to the Dalvik semantics
 (Spec/DalvikSem) and the Java semantics (Spec/JavaSem) of the text the Writer prints for it, values AND
 exceptions, for every register content and every literal of the encoding; `CONDS` negates; the Writer's in-place
-assignment forms store the same value; the refutations of the unfixed code (D9 and the missing `L` suffix).
+assignment forms store the same value; the refutations of the unfixed code (D9 and the missing `L` suffix);
+`print_parse`: the lexemes the Writer prints for ANY well-formed IR expression tree re-parse, with a parser written
+from the JLS grammar, to the Java tree of that expression (Model/JExpr.lean, Proof/JExprParse.lean, JExprMain.lean), and
+for the arithmetic fragment the JLS value of the re-parsed tree is the value the soundness theorem uses
+(`reparsed_value`, `translate_sound_reparsed`; Model/JExprSem.lean, Proof/JExprSem.lean).
 
 NOT proved (PARTIAL): everything between translation and printing — register propagation, dead-code elimination,
 variable splitting and typing, loop/if/switch structuring, the statement writer.  Those are reached only by
@@ -202,6 +206,31 @@ theorem reparsed_value (Γ : String → Option (Ty × Nat)) (ρ : JavaSem.Env) (
     ∃ T, JExpr.parse (JExpr.print (JExpr.ofExpr e)) = some T ∧ JExpr.evalJ Γ ρ T = eval ρ e :=
   JExpr.reparsed_value Γ ρ e hf hl ht
 
+/-- the register operands of every row are among v0 … v3 (`decide` over the generated table) -/
+theorem rows_regs_bound :
+    rows.all (fun r => match coreOf r with | some c => JExpr.coreBound c | none => true) = true := by
+  decide +kernel
+
+/-- **translate_sound, through the parser**: for every row of the real translation table, all register contents and
+    every literal of the encoding, and every declaration `Γ` of the register variables v0 … v3 with the types the
+    instruction reads them with (`JExpr.declFor fm` is one: `JExpr.declFor_declares`): the lexemes the Writer prints for the instruction's expression re-parse (JLS parser) to a Java tree
+    whose JLS value, exception or branch decision — evaluated on the tree — is exactly the outcome of the instruction
+    under the Dalvik semantics.  (`translate_sound_partial` composed with `print_parse` and `reparsed_value`; the
+    hypotheses of the latter are discharged for every row here.) -/
+theorem translate_sound_reparsed :
+    ∀ r ∈ rows, ∃ fm d c, DalvikSem.form r.opcode = some fm ∧ domOfText r.dom = some d ∧ coreOf r = some c ∧
+      ∀ (ρ : DalvikSem.Env) (lit : Int), litOk fm lit → d.ok lit →
+        ∀ Γ : String → Option (Ty × Nat), JExpr.DeclaresRegs Γ fm →
+          ∃ T, JExpr.parse (JExpr.print (JExpr.ofExpr (exprOf fm lit c))) = some T ∧
+            JExpr.classify c (JExpr.evalJ Γ (jenv ρ) T) = some (step fm ρ lit) := by
+  intro r hr
+  obtain ⟨fm, d, c, hf, hd, hc, h⟩ := translate_sound_partial r hr
+  have hb : JExpr.coreBound c = true := by
+    have := List.all_eq_true.mp rows_regs_bound r hr
+    simpa [hc] using this
+  exact ⟨fm, d, c, hf, hd, hc, fun ρ lit hl hdom Γ hΓ =>
+    JExpr.row_reparsed fm c ρ lit Γ hΓ hb _ (h ρ lit hl hdom)⟩
+
 /-- the parser is not vacuous (1): a Writer that drops the parentheses of a RIGHT operand prints, for every operator
     and all primaries a b c, `a op (b op c)` as the lexemes of `(a op b) op c` -/
 theorem noparen_right_reassociates (o : JExpr.BinOp) (a b c : JExpr.DExpr) (ha : JExpr.WF a) (hb : JExpr.WF b)
@@ -258,5 +287,7 @@ example : let e : Expr := .bin .shr (.cast .long (.var .int 1)) (.bin .and (.var
   simp only [JExpr.Typed]
   refine ⟨by simp, ?_, trivial⟩
   rw [if_neg (by decide)]; simp
+
+example (fm : Form) : JExpr.DeclaresRegs (JExpr.declFor fm) fm := JExpr.declFor_declares fm
 
 end AgVerif.C21
